@@ -481,25 +481,25 @@ theorem C07_iter_compose (cfg : Cfg) (pre : List TEvent) (js : List JOp)
 
 /-- `m2` is further ahead than `m1` on the circle of Observe values, counted from `b` -/
 def Ahead (b : Nat) (m1 m2 : Msg) : Prop :=
-  ∃ v1 v2, m1.obs = some v1 ∧ m2.obs = some v2 ∧ soff b v1 < soff b v2
+  ∃ v1 v2, m1.notif = some v1 ∧ m2.notif = some v2 ∧ soff b v1 < soff b v2
 
 theorem callbacks_increasing (cfg : Cfg) (b T : Nat) (es : List TEvent) (v0 t0 : Nat)
     (hv0 : v0 < 2 ^ 24) (ho0 : soff b v0 < 2 ^ 23) (ht0 : T ≤ t0)
-    (hall : ∀ e ∈ es, ∃ m v, e.ev = .message m false ∧ m.obs = some v ∧ v < 2 ^ 24 ∧
+    (hall : ∀ e ∈ es, ∃ m v, e.ev = .message m false ∧ m.notif = some v ∧ m.cancels = false ∧ v < 2 ^ 24 ∧
       soff b v < 2 ^ 23 ∧ T ≤ e.time ∧ e.time ≤ T + cfg.reset) :
     (∀ m ∈ callbacksOf (deliveries cfg (.observing v0 t0) es),
-      ∃ v, m.obs = some v ∧ soff b v0 < soff b v) ∧
+      ∃ v, m.notif = some v ∧ soff b v0 < soff b v) ∧
     (callbacksOf (deliveries cfg (.observing v0 t0) es)).Pairwise (Ahead b) ∧
     ∃ v1 t1, finalState cfg (.observing v0 t0) es = .observing v1 t1 ∧
       match (callbacksOf (deliveries cfg (.observing v0 t0) es)).getLast? with
       | none => v1 = v0
-      | some m => m.obs = some v1 := by
+      | some m => m.notif = some v1 := by
   induction es generalizing v0 t0 with
   | nil => exact ⟨by simp [deliveries_nil, callbacksOf], by simp [deliveries_nil, callbacksOf],
       v0, t0, rfl, by simp [deliveries_nil, callbacksOf]⟩
   | cons e es ih =>
-    obtain ⟨m, v, hev, hobs, hv, ho, htT, ht⟩ := hall e List.mem_cons_self
-    have hrest : ∀ e' ∈ es, ∃ m v, e'.ev = .message m false ∧ m.obs = some v ∧ v < 2 ^ 24 ∧
+    obtain ⟨m, v, hev, hobs, hcn, hv, ho, htT, ht⟩ := hall e List.mem_cons_self
+    have hrest : ∀ e' ∈ es, ∃ m v, e'.ev = .message m false ∧ m.notif = some v ∧ m.cancels = false ∧ v < 2 ^ 24 ∧
         soff b v < 2 ^ 23 ∧ T ≤ e'.time ∧ e'.time ≤ T + cfg.reset :=
       fun e' he' => hall e' (List.mem_cons_of_mem _ he')
     obtain ⟨t, ev⟩ := e
@@ -514,7 +514,7 @@ theorem callbacks_increasing (cfg : Cfg) (b T : Nat) (es : List TEvent) (v0 t0 :
     by_cases hf : fresher cfg.reset v0 t0 v t = true
     · have hlt := hfr.mp hf
       obtain ⟨h1, h2, v1, t1, h3, h4⟩ := ih v t hv ho (by omega) hrest
-      simp only [hf, ↓reduceIte, Bool.false_eq_true, List.append_nil]
+      simp only [hf, hcn, ↓reduceIte, Bool.false_eq_true, List.append_nil]
       have hcb : callbacksOf [Delivery.callback m] = [m] := rfl
       rw [hcb]
       refine ⟨?_, ?_, v1, t1, h3, ?_⟩
@@ -552,18 +552,18 @@ the application has from the response future. -/
 theorem C07_iter_compose_freshest (cfg : Cfg) (hobs : cfg.observe = true) (b T : Nat)
     (pre : List TEvent) (js : List JOp) (hjs : ∀ j ∈ js, j.isCons = true)
     (e0 : TEvent) (es : List TEvent) (hes : pre ++ events js = e0 :: es)
-    (hall : ∀ e ∈ e0 :: es, ∃ m v, e.ev = .message m false ∧ m.obs = some v ∧ v < 2 ^ 24 ∧
+    (hall : ∀ e ∈ e0 :: es, ∃ m v, e.ev = .message m false ∧ m.notif = some v ∧ m.cancels = false ∧ v < 2 ^ 24 ∧
       soff b v < 2 ^ 23 ∧ T ≤ e.time ∧ e.time ≤ T + cfg.reset) (n : Nat) (hn : 2 ≤ n) :
     let s0 : St Msg := final init (openOps (deliveries cfg .awaitingFirst pre))
     let r := jrun cfg (finalState cfg .awaitingFirst pre) s0 js
     let O := r.2 ++ (pulls n r.1.2).2
     (items O).Pairwise (Ahead b) ∧
-    ∃ v1, (∀ m ∈ arrived (e0 :: es), ∀ v, m.obs = some v → soff b v ≤ soff b v1) ∧
-      ((∃ m0 last, e0.ev = .message m0 last ∧ m0.obs = some v1 ∧ items O = []) ∨
-       ∃ m, (items O).getLast? = some m ∧ m.obs = some v1) := by
+    ∃ v1, (∀ m ∈ arrived (e0 :: es), ∀ v, m.notif = some v → soff b v ≤ soff b v1) ∧
+      ((∃ m0 last, e0.ev = .message m0 last ∧ m0.notif = some v1 ∧ items O = []) ∨
+       ∃ m, (items O).getLast? = some m ∧ m.notif = some v1) := by
   intro s0 r O
-  obtain ⟨m0, v0, hev, hobs0, hv0, ho0, hT0, _⟩ := hall e0 List.mem_cons_self
-  have hrest : ∀ e ∈ es, ∃ m v, e.ev = .message m false ∧ m.obs = some v ∧ v < 2 ^ 24 ∧
+  obtain ⟨m0, v0, hev, hobs0, _, hv0, ho0, hT0, _⟩ := hall e0 List.mem_cons_self
+  have hrest : ∀ e ∈ es, ∃ m v, e.ev = .message m false ∧ m.notif = some v ∧ m.cancels = false ∧ v < 2 ^ 24 ∧
       soff b v < 2 ^ 23 ∧ T ≤ e.time ∧ e.time ≤ T + cfg.reset :=
     fun e he => hall e (List.mem_cons_of_mem _ he)
   obtain ⟨t, ev⟩ := e0
@@ -580,7 +580,10 @@ theorem C07_iter_compose_freshest (cfg : Cfg) (hobs : cfg.observe = true) (b T :
     have := C07_ends_exactly_once cfg hobs (⟨t, .message m0 false⟩ :: es) (by
       intro e he
       obtain ⟨m, v, h, _⟩ := hall e he
-      rw [h]; rfl)
+      rw [h]; rfl) (by
+      intro e he
+      obtain ⟨m, v, h, _, hc, _⟩ := hall e (List.mem_cons_of_mem _ (by simpa using he))
+      rw [h]; exact hc)
     rw [this]
     have hterm : ∀ e ∈ (⟨t, .message m0 false⟩ :: es : List TEvent),
         Event.terminating e.ev = false := by
@@ -672,22 +675,22 @@ example : (pulls 3 (final init ([.next, .push 1, .push 2, .pushErr .observationC
 
 /-- `__aiter__` on an observation that has already ended (third fixed defect): the last response,
 then the end -/
-example : outs init (openOps [.response ⟨69, some 5, 0⟩, .callback ⟨69, some 6, 1⟩,
-    .callback ⟨132, none, 2⟩, .errback .observationCancelled] ++ [.next, .next]) =
-    [.item ⟨132, none, 2⟩, .stop] := by decide
+example : outs init (openOps [.response ⟨69, some 5, 0, false⟩, .callback ⟨69, some 6, 1, false⟩,
+    .callback ⟨132, none, 2, false⟩, .errback .observationCancelled] ++ [.next, .next]) =
+    [.item ⟨132, none, 2, false⟩, .stop] := by decide
 
 /-- runner and iterator: first response, a notification the consumer fetches, two more while it is
 busy (one stale), the 4.04 — handed out: 6, then the 4.04, then stop -/
 def exJops : List JOp :=
   [.pipe (exN 0 5 0), .cons .next, .pipe (exN 1 6 1), .cons .wake, .pipe (exN 2 7 2), .pipe (exN 3 6 3),
-   .pipe ⟨4, .message ⟨132, none, 4⟩ true⟩, .cons .next, .cons .next, .pipe (exN 5 9 5), .cons .next]
+   .pipe ⟨4, .message ⟨132, none, 4, false⟩ true⟩, .cons .next, .cons .next, .pipe (exN 5 9 5), .cons .next]
 
 example : (jrun exCfg .awaitingFirst init exJops).2 =
-    [.item ⟨69, some 6, 1⟩, .item ⟨132, none, 4⟩, .stop, .stop] := by decide
+    [.item ⟨69, some 6, 1, false⟩, .item ⟨132, none, 4, false⟩, .stop, .stop] := by decide
 example : ∀ j ∈ exJops, j.isCons = true := by decide
 example : errbacks (deliveries exCfg .awaitingFirst (events exJops)) = [.observationCancelled] := by
   decide
-example : lastCallback (deliveries exCfg .awaitingFirst (events exJops)) = some ⟨132, none, 4⟩ := by
+example : lastCallback (deliveries exCfg .awaitingFirst (events exJops)) = some ⟨132, none, 4, false⟩ := by
   decide
 
 /-- the hypotheses of `C07_iter_compose_freshest` are met by the wrap-around history `exWrap` of
@@ -695,6 +698,6 @@ example : lastCallback (deliveries exCfg .awaitingFirst (events exJops)) = some 
 def exWrapJops : List JOp := exWrap.map .pipe ++ [.cons .next]
 example : [] ++ events exWrapJops = exN 10 (2 ^ 24 - 2) 0 :: exWrap.tail := by decide
 example : ∀ j ∈ exWrapJops, j.isCons = true := by decide
-example : (jrun exCfg .awaitingFirst init exWrapJops).2 = [.item ⟨69, some 1, 1⟩] := by decide
+example : (jrun exCfg .awaitingFirst init exWrapJops).2 = [.item ⟨69, some 1, 1, false⟩] := by decide
 
 end Aiocoap.Observe.Iter
